@@ -1,14 +1,25 @@
 import GaeaVerif.Sexp
 import GaeaVerif.Model.PreviewC21Spec
 import GaeaVerif.Model.LexC17Spec
+import GaeaVerif.Model.StmtCalcParams
 /-
-  Driver for C21.  Requests (U = ro | rosplit | rw | rwsplit):
-    m (preview HEX)        → (k c STRIPPED)  Preview, PreviewSpecialComment, StripLeadingComments
-    m (check U HEX)        → reject | pass   checkSQLAllowed
-    m (sess PATH U HEX)    PATH = query | stmt: → reject | pass       doQuery / handleStmtExecute→handleQuery→doQuery
+  Driver for C21.  Requests (U = ro | rosplit | rw | rwsplit; A = optional `(ast w|r|x)`: what /repo's
+  grammar makes of the text — a statement that writes / another statement / no parse —, recorded by the generator):
+    m (preview HEX)        → (k c m STRIPPED)  Preview, PreviewSpecialComment, PreviewMainStatement, StripLeadingComments
+    m (withmain HEX)       → (some HEX) | none   withMainStatement
+    m (check U HEX A)      → reject | pass   checkSQLAllowed
+    m (sess PATH U HEX A P)  PATH = query | squery | stmt: → reject | pass   doQuery (squery: on a session whose namespace has a
+                             shard rule, where statements are planned from the parsed tree) / handleStmtExecute→handleQuery→doQuery
                            PATH = multi | stmtmulti: → (reject n) | (ok n) | (err n)   …→doMultiStmts, on a session
                              with a fake backend that fails statements holding FAILME; n = statements the backend
                              executed (the generator uses statements that the proxy forwards to the backend)
+                           P = optional `(pk N)`: on this session getPlan builds the plan of the statement from a parsed
+                             tree whose stmtTypeOfNode is N (recorded by the generator from the real preBuildUnshardPlan / Parse)
+                           PATH = requery: doQuery on a session of user kind U (rw | rwsplit) whose user a namespace reload
+                             made read-only after login → reject | pass
+    m (sess stmtp U HEX (ARG…))  → reject | pass | (err prepare) | (err bind)
+                           handleStmtPrepare(HEX), then handleStmtExecute with parameter i bound to
+                           ARG[i mod #ARG] (NULL when there is none); ARG = null | (s HEX) | (i INT)
     s <request> <implementation output>   property oracle
 -/
 namespace GaeaVerif.Drv.C21
@@ -33,24 +44,92 @@ def fmtSess (rs : List (Bytes × QueryOut)) : String :=
   else if rs.any (fun r => r.2 == .passed false) then s!"(err {n})"
   else s!"(ok {n})"
 
-def model (req : Sexp) : String :=
+/-- `handleQuery` of a multi-statement client: when the splitter fails nothing is executed and an error is returned. -/
+def fmtMulti (aw : Bool) (sql : Bytes) : String :=
+  let m := doMultiStmts (fun s => (doQuery tables aw (fun _ => none) backendOK s).noError) (trimRightSemi sql)
+  if m.executed.isEmpty && m.failed then "(err 0)" else fmtSess (handleQuery tables aw true (fun _ => none) backendOK sql)
+
+structure Facts where
+  ast : Option String := none     -- (ast w|r|x): what /repo's grammar makes of the text (generator's own classification)
+  pk : Option Nat := none         -- (pk N): getPlan builds the plan from a parsed tree of kind N (stmtTypeOfNode)
+
+/-- Split the optional trailing `(ast …)` / `(pk …)` facts off a request. -/
+def splitFacts : List Sexp → List Sexp × Facts
+  | [] => ([], {})
+  | x :: xs =>
+    let (r, f) := splitFacts xs
+    match x, r with
+    | .list [.atom "ast", .atom a], [] => ([], { f with ast := some a })
+    | .list [.atom "pk", .atom n], [] => ([], { f with pk := n.toNat? })
+    | _, _ => (x :: r, f)
+
+def dropAst (req : Sexp) : Sexp × Facts :=
+  match req with
+  | .list xs => let (r, f) := splitFacts xs; (.list r, f)
+  | _ => (req, {})
+
+def argOf : Sexp → Option StmtBind.Arg
+  | .atom "null" => some .null
+  | .list [.atom "s", h] => h.asBytes?.map .bytes
+  | .list [.atom "i", .atom n] => n.toInt?.map .int
+  | _ => none
+
+def argsFor (n : Nat) (given : List StmtBind.Arg) : List StmtBind.Arg :=
+  (List.range n).map fun i => given.getD (i % given.length) .null
+
+/-- The statement items and the bound arguments of a `stmtp` request. -/
+def boundOf (sql : Bytes) (as : List Sexp) : Option (Option (List Bytes × List StmtBind.Arg)) :=
+  match as.mapM argOf with
+  | none => none
+  | some given =>
+    match StmtCalcParams.calcParams (trimRightSemi sql) with
+    | .ok (n, _, items) => some (some (items, argsFor n given))
+    | _ => some none
+
+def model (req0 : Sexp) : String :=
+  let (req, facts) := dropAst req0
+  -- the plan of the statement of the request is built from a parsed tree of this kind (no other statement is)
+  let plannedFor (text : Bytes) : Bytes → Option Nat := fun s => if s == text then facts.pk else none
   match req with
   | .list [.atom "preview", h] =>
     match h.asBytes? with
-    | some sql => s!"({preview tables sql} {previewSpecialComment tables sql} {bytesToHex (stripLeadingComments sql)})"
+    | some sql => s!"({preview tables sql} {previewSpecialComment tables sql} {previewMainStatement tables sql} {bytesToHex (stripLeadingComments sql)})"
+    | none => "bad"
+  | .list [.atom "withmain", h] =>
+    match h.asBytes? with
+    | some sql =>
+      match withMainStatement sql with
+      | some m => s!"(some {bytesToHex m})"
+      | none => "none"
     | none => "bad"
   | .list [.atom "check", .atom u, h] =>
     match allowWriteOf u, h.asBytes? with
     | some aw, some sql => if checkSQLAllowed tables aw sql then "reject" else "pass"
     | _, _ => "bad"
+  | .list [.atom "sess", .atom "stmtp", .atom u, h, .list as] =>
+    match allowWriteOf u, h.asBytes? with
+    | some aw, some sql =>
+      match boundOf sql as with
+      | none => "bad"
+      | some none => "(err prepare)"
+      | some (some (items, args)) =>
+        match handleStmtExecuteBound tables aw false (fun _ => none) backendOK false items args with
+        | some rs => if rs.any (fun r => r.2 == .rejected) then "reject" else "pass"
+        | none => "(err bind)"
+    | _, _ => "bad"
   | .list [.atom "sess", .atom path, .atom u, h] =>
     match allowWriteOf u, h.asBytes? with
     | some aw, some sql =>
-      if path == "query" then (if doQuery tables aw backendOK sql == .rejected then "reject" else "pass")
-      else if path == "multi" then fmtSess (handleQuery tables aw true backendOK sql)
+      if path == "query" || path == "squery" then
+        (if doQuery tables aw (plannedFor sql) backendOK sql == .rejected then "reject" else "pass")
+      else if path == "requery" then
+        -- the user was made read-only after login: the namespace is asked for every statement
+        (if doQuery tables false (plannedFor sql) backendOK sql == .rejected then "reject" else "pass")
+      else if path == "multi" then fmtMulti aw sql
       else if path == "stmt" then
-        (if (handleStmtExecute tables aw false backendOK sql).any (fun r => r.2 == .rejected) then "reject" else "pass")
-      else if path == "stmtmulti" then fmtSess (handleStmtExecute tables aw true backendOK sql)
+        (if (handleStmtExecute tables aw false (plannedFor (trimRightSemi sql)) backendOK sql).any (fun r => r.2 == .rejected)
+         then "reject" else "pass")
+      else if path == "stmtmulti" then fmtMulti aw sql
       else "bad"
     | _, _ => "bad"
   | _ => "bad"
@@ -72,21 +151,38 @@ def firstStopIsWrite : List Bytes → Bool
   | [] => false
   | p :: ps => if isWrite p then true else if backendOK p then firstStopIsWrite ps else false
 
-def oracle (req out : Sexp) : String :=
+def oracle (req0 out : Sexp) : String :=
+  let (req, facts) := dropAst req0
+  -- the grammar of /repo builds a writing statement from the text
+  let astW := facts.ast == some "w"
   match req with
   | .list [.atom "preview", _] => "ok"
+  | .list [.atom "withmain", _] => "ok"
   | .list [.atom "check", .atom u, h] =>
     match allowWriteOf u, h.asBytes? with
     | some aw, some sql =>
+      -- (checkSQLAllowed alone: a tree the parser builds is checked later, in getPlan — see the sess paths)
       if !aw && isWrite sql && out != .atom "reject" then "viol write-statement-allowed-for-read-only-user" else "ok"
     | _, _ => "bad"
-  | .list [.atom "sess", .atom path, .atom u, h] =>
+  | .list [.atom "sess", .atom "stmtp", .atom u, h, .list as] =>
     match allowWriteOf u, h.asBytes? with
     | some aw, some sql =>
       if aw then "ok"
       else
-        if path == "query" || path == "stmt" then
-          if isWrite (if path == "stmt" then trimRightSemi sql else sql) then
+        let bound := match boundOf sql as with
+          | some (some (items, args)) =>
+            (match StmtBind.getRewriteSQL false items args with | .ok t => isWrite (trimRightSemi t) | _ => false)
+          | _ => false
+        if bound && out == .atom "pass" then "viol write-statement-allowed-for-read-only-user"
+        else "ok"
+    | _, _ => "bad"
+  | .list [.atom "sess", .atom path, .atom u, h] =>
+    match allowWriteOf u, h.asBytes? with
+    | some aw, some sql =>
+      if aw && path != "requery" then "ok"
+      else
+        if path == "query" || path == "squery" || path == "requery" || path == "stmt" then
+          if isWrite (if path == "stmt" then trimRightSemi sql else sql) || astW then
             (if out == .atom "reject" then "ok"
              else if out == .atom "reject-after-backend" then "viol rejected-after-backend-access"
              else "viol write-statement-allowed-for-read-only-user")
